@@ -98,6 +98,10 @@ def class_source(prog, ci, S, direct=False):
         a_, b_ = f"C{c['pair']['a']}{S}", f"C{c['pair']['b']}{S}"
         sp = "direct" if direct else c["pair"]["spell"]
         t_ = f"Tuple[{a_}, List[{b_}]]" if sp in ("direct", "future") else repr(f"Tuple[{a_}, List[{b_}]]") if sp == "whole" else f"Tuple[{a_!r}, List[{b_!r}]]"
+        if c["pair"].get("self_b") and not direct and sp in ("str", "whole"):
+            # the second argument is the class itself, spelled Self, next to a reference that may still be pending
+            # (as one whole string the annotation is evaluated at the first parse only)
+            t_ = f"Tuple[{a_!r}, List[Self]]" if sp == "str" else repr(f"Tuple[{a_}, List[Self]]")
         L.append(f"    pr: {t_} = Field(default=None)")
     for fi, r in enumerate(c["refs"]):
         tgt = f"C{r['to']}{S}"
@@ -588,6 +592,9 @@ def generate(rng, tier):
         cands = [x for x in no_req if (x > ci if dag else True)]
         if cands:
             classes[ci]["pair"] = {"a": rng.choice(cands), "b": rng.choice(cands), "spell": "future" if future else rng.choice(["str", "str", "whole"])}
+            if not dag and ci in no_req and rng.random() < 0.4:
+                classes[ci]["pair"]["b"] = ci
+                classes[ci]["pair"]["self_b"] = True
     plan = {"prop": ID, "kind": "module", "prog": prog, "order": order}
     # events: defines in `order` (alias and function somewhere), uses interleaved
     ev = [{"ev": "define", "cls": c} for c in order]
